@@ -227,8 +227,16 @@ yield2:
 			if (LIKELY(nrd > 0)) {
 				break;
 			}
-			/* not concluded with \n, let's hope we're in drain mode */
-			return -1;
+			/* not concluded with \n and nothing more to come,
+			 * so this is the last line, hand it out along with
+			 * the ones we have got */
+			set_loff(ctx, ctx->tot_lno, bno - ctx->buf);
+			if (LIKELY((size_t)(bno - ctx->buf) < MAP_LEN)) {
+				*bno = '\0';
+			}
+			off = bno;
+			ctx->tot_lno++;
+			YIELD(3);
 		}
 		/* massage our status structures */
 		set_loff(ctx, ctx->tot_lno, p - ctx->buf);
